@@ -93,6 +93,33 @@ func (b *Batch) RunGenerators(pluginBin, self string) error {
 		if err := ioutil.WriteFile(cfgPath, []byte("types: [unterminated\n  - : :\n\t{"), 0o644); err != nil {
 			return err
 		}
+	case "garbage:listmap", "garbage:elemmap", "garbage:nested", "garbage:sort", "garbage:scalar", "garbage:kvlist":
+		// well-formed YAML documents that cannot be parsed *as a configuration*: a value of the wrong shape
+		y2 := y
+		var text string
+		switch b.Case.YamlState {
+		case "garbage:listmap":
+			y2.ExcludeFields = nil
+			text = y2.YAML() + "exclude_fields:\n  Zz.Field: true\n"
+		case "garbage:elemmap":
+			y2.ComputedFields = nil
+			text = y2.YAML() + "computed_fields:\n  - Zz.Field: true\n"
+		case "garbage:nested":
+			y2.SensitiveFields = nil
+			text = y2.YAML() + "sensitive_fields:\n  - [Zz.Field]\n"
+		case "garbage:sort":
+			y2.Sort = false
+			text = y2.YAML() + "sort: perhaps\n"
+		case "garbage:kvlist":
+			y2.NameOverrides = nil
+			text = y2.YAML() + "name_overrides:\n  - Zz.Field\n"
+		default:
+			text = "just a scalar document\n"
+		}
+		cfgPath = filepath.Join(b.Dir, "config.yaml")
+		if err := ioutil.WriteFile(cfgPath, []byte(text), 0o644); err != nil {
+			return err
+		}
 	}
 	if tp := b.effective("target_package_name", y.TargetPackageName); tp != "" {
 		b.TargetPkg = tp
